@@ -171,7 +171,6 @@ impl AccessControlBuiltin {
 
       // General case
       topic_name => {
-        let grant = self.get_grant(&permissions_handle)?;
         let domain_rule = self.get_domain_rule(&permissions_handle)?;
 
         let requested_access_is_unprotected = domain_rule
@@ -188,6 +187,14 @@ impl AccessControlBuiltin {
             },
           )
           .is_some_and(bool::not);
+
+        // Access that the governance document leaves unprotected does not depend on the
+        // permissions document (which may have no currently valid grant for the participant).
+        if requested_access_is_unprotected {
+          return Ok(true);
+        }
+
+        let grant = self.get_grant(&permissions_handle)?;
 
         let participant_has_write_access = grant
           .check_action(
@@ -215,8 +222,7 @@ impl AccessControlBuiltin {
           Entity::Topic => participant_has_write_access || participant_has_read_access,
         };
 
-        let check_passed = requested_access_is_unprotected || participant_has_requested_access;
-        Ok(check_passed)
+        Ok(participant_has_requested_access)
       }
     }
   }
